@@ -965,9 +965,22 @@ def oracle_client(prop, method, maxc, family, evs, steps):
     return bad
 
 
+def dns_handlers_of(st):
+    """the DnsProxies the real loop still waits on after an iteration (the step string is rendered at the NEXT select,
+    i.e. after runonce has dropped the handlers whose ok flag is off): [(identifier, [socket ids], deadline)]"""
+    out = []
+    hpart = st.split(" | ")[1].split(" ")[0][2:]
+    for h in ([] if hpart == "~" else hpart.split(",")):
+        t = h.split(".")
+        if t[0] == "D":
+            out.append((int(t[1]), [] if t[3] == "~" else [int(x) for x in t[3].split("+")], int(t[4])))
+    return out
+
+
 def oracle_server(prop, to_ns, sysns, evs, steps):
     bad = []
     udp_sock = {}      # chan -> socket id of the live association
+    prev_h, prev_now, aliased = [], None, False
     for i, ev in enumerate(evs):
         if i >= len(steps):
             break
@@ -1017,6 +1030,29 @@ def oracle_server(prop, to_ns, sysns, evs, steps):
         for o in ts:
             if (o[2], unhx(o[3])) not in datas:
                 bad.append(("c11_one_to_one", "step %d: sendto %r matches no UDP_DATA frame" % (i, o)))
+        # "unanswered queries are forgotten 30 seconds later" (Props/C10.v c10_expiry_server): once an iteration at
+        # time t has run, no query with deadline < t is waited on any more, and a resolver reply that arrives for it
+        # later produces no frame.  Not judged from the point where the peer asks on an identifier whose previous
+        # query the server still legitimately holds (the standing no-stale-allocation hypothesis; the unregistered
+        # older handler of c10_server_alias_example)
+        legit = set(c for c, ss, dl in prev_h if dl >= prev_now)
+        qs = [f[0] for f in frames if f[1] == "Q"]
+        if any(c in legit for c in qs) or len(set(qs)) < len(qs):
+            aliased = True
+        cur_h = dns_handlers_of(st)
+        if not aliased:
+            for c, ss, dl in prev_h:
+                if dl < prev_now and any(x in ready for x in ss) and \
+                        any(o[0] == "F" and int(o[2]) == CMD["R"] and int(o[1]) == c for o in outs):
+                    bad.append(("c10_reply_relayed_after_expiry", "step %d (time %d): a reply on resolver socket %s of the "
+                                "query on identifier %d, deadline %d, swept at %d, was relayed as DNS_RESPONSE"
+                                % (i, now, ss, c, dl, prev_now)))
+            for c, ss, dl in cur_h:
+                if dl < now:
+                    bad.append(("c10_expired_query_still_waited_on", "step %d (time %d): the query on identifier %d with "
+                                "deadline %d is still among the handlers the loop waits on (sockets %s)" % (i, now, c, dl, ss)))
+                    break
+        prev_h, prev_now = cur_h, now
         # one remote socket per association: UDP_OPEN c creates a socket (K token); until UDP_CLOSE c every UDP_DATA c
         # leaves through that very socket (frames and socket calls are logged in the order the real loop made them)
         ks = [o for o in outs if o[0] == "K"]
@@ -1224,6 +1260,12 @@ class SystemRun:
         self.hyp_ok, self.cross, self.delivered, self.log, self.stuck = True, [], 0, [], None
         self.hyp_any_ok = True   # no_stale_alloc_any (Props/C11.v c11_system_never_raises)
         self.yevs, self.steps = [], []
+        # ghosts for "forgotten 30 seconds later" on the server side of the composition
+        self.dsocks = []         # resolver sockets of ALL DnsProxies still in `handlers` (also overdue ones)
+        self.sock_t0 = {}        # resolver socket -> server time at which its query was sent
+        self.prev_snow = None    # time of the previous server iteration (its sweep has run)
+        self.stale_waits, self.retired_frames = [], []
+        self.ops = []            # the schedule, replayable (system_replay)
 
     def in_flight(self, ch):
         return (any(f[0] == ch and f[1] == "Q" for f in self.up) or any(c == ch for c, _ in self.live)
@@ -1248,6 +1290,7 @@ class SystemRun:
 
     def accept_ev(self, cev):
         """cev: a client accept event of run_client: ("D"|"U", now, src, dst|None, payload) | ("T", now, family, dst)"""
+        self.ops.append(["accept_ev", [hx(x) if isinstance(x, bytes) else (list(x) if isinstance(x, tuple) else x) for x in cev]])
         self.cevs.append(cev)
         if cev[0] == "T":
             self.yevs.append("A|T,%d,%d,%s" % (cev[1], cev[2], addr_s(cev[3])))
@@ -1269,9 +1312,12 @@ class SystemRun:
 
     def accept(self, now, src, payload):
         self.asked[payload] = src
+        self.ops.append(["asked", hx(payload), list(src)])
         self.accept_ev(("D", now, src, None if self.method == "B" else ("8.8.8.8", 53), payload))
 
     def server_io(self, now, k, ready, io):
+        self.ops.append(["server_io", now, k, list(ready), [[hx(x) if isinstance(x, bytes) else (list(x) if isinstance(x, tuple) else x)
+                                                            for x in it] for it in io]])
         frames, self.up = self.up[:k], self.up[k:]
         self.sevs.append((now, frames, ready, io))
         self.yevs.append("S|%d/%d/%s/%s" % (now, k, ",".join(str(x) for x in ready) or "~", ",".join(io_s(i) for i in io) or "~"))
@@ -1284,19 +1330,39 @@ class SystemRun:
         for o in parse_outs(st):
             if o[0] == "S":
                 self.sock_req[int(o[1])] = unhx(o[2])
+                self.sock_t0.setdefault(int(o[1]), now)
             elif o[0] == "F":
                 self.down.append((int(o[1]), unhx(o[3]), "R" if int(o[2]) == CMD["R"] else "D"))
+                sock = self.ans_sock.get(unhx(o[3])) if int(o[2]) == CMD["R"] else None
+                t0 = self.sock_t0.get(sock)
+                if t0 is not None and self.prev_snow is not None and t0 + 30 < self.prev_snow and self.hyp_ok:
+                    # the query sent on that socket at t0 was past its deadline when the previous iteration swept:
+                    # the server had to forget it then; a frame for it now is a violation whoever owns the identifier
+                    self.retired_frames.append("server iteration at %d relayed the answer %r, read from resolver socket %d "
+                                               "whose query %r was sent at %d (deadline %d, swept at %d), as DNS_RESPONSE "
+                                               "on identifier %d" % (now, unhx(o[3]), sock, self.sock_req.get(sock), t0,
+                                                                     t0 + 30, self.prev_snow, int(o[1])))
         hpart = st.split(" | ")[1].split(" ")[0][2:]
-        self.live, self.hchans, self.socks = [], [], []
+        self.live, self.hchans, self.socks, self.dsocks = [], [], [], []
         for h in ([] if hpart == "~" else hpart.split(",")):
             t = h.split(".")
             self.hchans.append(int(t[1]))
             if t[0] == "U":
                 self.socks.append(int(t[2]))
             if t[0] == "D":
-                self.socks += [] if t[3] == "~" else [int(x) for x in t[3].split("+")]
-            if t[0] == "D":
-                self.live.append((int(t[1]), [] if t[3] == "~" else [int(x) for x in t[3].split("+")]))
+                ss = [] if t[3] == "~" else [int(x) for x in t[3].split("+")]
+                self.socks += ss
+                self.dsocks += ss
+                if int(t[4]) < now:
+                    # past its deadline and this iteration's sweep has run: by c10_expiry_server the query is forgotten.
+                    # It does not count as "in flight" for the no-stale-allocation hypothesis (which speaks about what
+                    # the run does, not about what a faulty server keeps)
+                    if self.hyp_ok:
+                        self.stale_waits.append("after the server iteration at %d the query on identifier %d (deadline %s) "
+                                                "is still waited on, sockets %s" % (now, int(t[1]), t[4], ss))
+                else:
+                    self.live.append((int(t[1]), ss))
+        self.prev_snow = now if self.prev_snow is None else max(self.prev_snow, now)
         self.steps.append("%s | %s" % (st, self._links()))
         self.log.append("S %d k=%d ready=%r -> %s" % (now, k, ready, st[:120]))
 
@@ -1305,9 +1371,11 @@ class SystemRun:
         io += [("d", answer)] if ready else []
         if ready:
             self.ans_sock[answer] = ready[0]
+            self.ops.append(["answer", hx(answer), ready[0]])
         self.server_io(now, k, ready, io)
 
     def deliver(self, err=None):
+        self.ops.append(["deliver", err])
         (ch, data, kind), self.down = self.down[0], self.down[1:]
         self.cevs.append(("F", ch, kind, data, err))
         self.yevs.append("V|%s" % ("ok" if err is None else str(err)))
@@ -1363,7 +1431,7 @@ def system_random(rng, maxc, n):
             r.accept(cnow, rng.choice(srcs), b"q%d" % qn)
         elif c == "S":
             snow += rng.choice([0, 1, 5, 29, 30, 31])
-            socks = [x for _, ss in r.live for x in ss]
+            socks = r.dsocks      # every resolver socket the loop waits on (a correct server holds none that is overdue)
             ready = [rng.choice(socks)] if socks and rng.random() < 0.7 else []
             an += 1
             r.server(snow, rng.randint(0, len(r.up)), ready, b"r%d" % an)
@@ -1492,7 +1560,12 @@ def _system_cases(ctx, rng, quick):
         if kind.startswith("witness"):
             continue
         if r.cross and r.hyp_ok:
-            ctx.violation("c10_no_cross_composed", {"system_log": r.log, "detail": r.cross, "max_channel": r.maxc})
+            ctx.violation("c10_no_cross_composed", dict(system_rep(r), detail=r.cross))
+        ctx.count("system_overdue_handlers_seen", len(r.stale_waits))
+        if r.stale_waits:
+            ctx.violation("c10_expired_query_still_waited_on", dict(system_rep(r), detail=r.stale_waits[0]))
+        if r.retired_frames:
+            ctx.violation("c10_reply_relayed_after_expiry", dict(system_rep(r), detail=r.retired_frames[0]))
         if r.stuck and r.stuck.startswith("server") and not (r.stuck == "server: FATAL" and not fx["F80"]):
             ctx.violation("c11_system_server_never_raises", {"system_log": r.log, "line": r.line(fx), "detail": r.stuck})
         elif r.stuck and r.stuck.startswith("client"):
@@ -1500,6 +1573,138 @@ def _system_cases(ctx, rng, quick):
                 ctx.violation("c11_system_never_raises", {"system_log": r.log, "line": r.line(fx), "detail": r.stuck})
             else:
                 ctx.count("system_client_failure_under_stale_reuse")
+
+
+def system_rep(r):
+    return {"system_log": r.log, "max_channel": r.maxc, "oracle": "system",
+            "system": {"maxc": r.maxc, "method": r.method, "family": r.family, "to_ns": list(r.to_ns) if r.to_ns else None,
+                       "ops": r.ops}}
+
+
+def system_replay(d):
+    """re-run a stored schedule of the composed system on the real code"""
+    r = SystemRun(d["maxc"], tuple(d["to_ns"]) if d["to_ns"] else None, d["method"], d["family"])
+
+    def un(x):
+        return tuple(x) if isinstance(x, list) else x
+    for op in d["ops"]:
+        if r.stuck:
+            break
+        if op[0] == "asked":
+            r.asked[unhx(op[1])] = tuple(op[2])
+        elif op[0] == "answer":
+            r.ans_sock[unhx(op[1])] = op[2]
+        elif op[0] == "accept_ev":
+            e = op[1]
+            if e[0] == "T":
+                r.accept_ev(("T", e[1], e[2], tuple(e[3])))
+            else:
+                r.accept_ev((e[0], e[1], tuple(e[2]), tuple(e[3]) if e[3] else None, unhx(e[4])))
+        elif op[0] == "server_io":
+            io = []
+            for it in op[4]:
+                if it[0] == "d":
+                    io.append(("d", unhx(it[1])))
+                elif it[0] == "f":
+                    io.append(("f", unhx(it[1]), tuple(it[2])))
+                else:
+                    io.append(tuple(it))
+            r.server_io(op[1], op[2], op[3], io)
+        elif op[0] == "deliver":
+            if r.down:
+                r.deliver(op[1])
+    return r
+
+
+def system_verdict(r):
+    """what the composed-system oracles say about a finished run (implementation only)"""
+    v = []
+    if r.retired_frames:
+        v.append(("frame_for_retired_query", r.retired_frames[0]))
+    if r.stale_waits:
+        v.append(("expired_query_still_waited_on", r.stale_waits[0]))
+    if r.cross and r.hyp_ok:
+        v.append(("foreign_answer_delivered", r.cross[0]))
+    return v
+
+
+# ----------------------------------------------------------------------
+# C06 on the composition: a resolver's late answer racing with expiry on BOTH ends, small identifier spaces
+
+def system_late_reply_case(rng, maxc, gap, order):
+    """maxc queries take all identifiers and reach the server; some are answered; `gap` seconds pass on both ends (the
+    client sweeps on its next accept, the server in its next iteration); new askers arrive and are handed the recycled
+    identifiers; then the resolver's LATE answer for an old, unanswered query arrives on its old socket; everything is
+    delivered.  order: which end lets the time pass first.  Unique query and answer payloads throughout."""
+    r = SystemRun(maxc)
+    srcs = [("10.0.0.%d" % i, 4000 + i) for i in range(1, 9)]
+    c = s = 100
+    for i in range(maxc):
+        r.accept(c, srcs[i], b"old-q%d" % i)
+    r.server(s, len(r.up), [], None)
+    old = list(r.dsocks)
+    answered = [x for x in old if rng.random() < 0.3]
+    for n, x in enumerate(answered):
+        r.server(s + 1, 0, [x], b"old-a%d" % n)
+        if r.down:
+            r.deliver()
+    pending = [x for x in old if x not in answered]
+
+    def client_time():
+        r.accept(c + gap, srcs[6], b"probe-after-gap")        # no identifier may be free: dropped, but it sweeps
+
+    def server_time():
+        r.server(s + gap, len(r.up), [], None)
+    for f in ((client_time, server_time) if order == 0 else (server_time, client_time)):
+        if not r.stuck:
+            f()
+    for i in range(maxc):
+        if not r.stuck:
+            r.accept(c + gap + 1, srcs[3 + i % 3], b"new-q%d" % i)
+    if not r.stuck:
+        r.server(s + gap + 1, len(r.up), [], None)
+    for n, x in enumerate(pending):
+        if r.stuck:
+            break
+        r.server(s + gap + 2, 0, [x], b"late-a%d" % n)        # has no effect when the server no longer waits on x
+    new = [x for x in r.dsocks if x not in old]
+    for n, x in enumerate(new):
+        if r.stuck:
+            break
+        r.server(s + gap + 3, 0, [x], b"new-a%d" % n)
+    while r.down and not r.stuck:
+        r.deliver()
+    return r
+
+
+def run_c06_system(ctx):
+    """C06 'a message that arrives for a flow that has already been closed is discarded and never reaches another flow'
+    for the resolver's late answer racing with expiry, on the real client + real server.main over two FIFO links:
+    (i) the server emits no frame for a query it had to forget (deadline passed before its previous iteration);
+    (ii) an asker receives only the answer to its own query — judged unless the run itself violates the standing
+    no-stale-allocation hypothesis (re-use while the previous incarnation is legitimately in flight)."""
+    rng, quick = ctx.rng, ctx.quick()
+    runs = []
+    for maxc in (1, 2, 3, 4):
+        for gap in (29, 30, 31, 32, 45):
+            for order in (0, 1):
+                runs.append((system_late_reply_case(rng, maxc, gap, order), "late_reply_maxc%d" % maxc))
+    for _ in range(120 if quick else 3000):
+        runs.append((system_random(rng, rng.choice([1, 2, 2, 3, 4, 8]), rng.randint(6, 18)), "random"))
+    for r, kind in runs:
+        ctx.count("system_runs")
+        ctx.count("system_runs_" + kind)
+        ctx.count("system_runs_no_stale_alloc_" + ("holds" if r.hyp_ok else "violated_unjudged"))
+        ctx.count("system_datagrams_delivered", r.delivered)
+        ctx.count("system_late_answers_injected", sum(1 for op in r.ops if op[0] == "answer" and unhx(op[1]).startswith(b"late")))
+        if r.stuck:
+            ctx.count("system_runs_stuck")
+        ctx.case(("system", kind, repr(r.ops)), nontrivial=r.delivered > 0,
+                 sample={"side": "system", "kind": kind, "max_channel": r.maxc, "delivered": r.delivered,
+                         "no_stale_alloc": r.hyp_ok, "log": r.log[-4:]})
+        for what, detail in system_verdict(r):
+            if what != "expired_query_still_waited_on":        # the leaked handler as such is C10's clause
+                ctx.violation("c06_" + what, dict(system_rep(r), detail=detail))
 
 
 def _codec_cases(ctx, rng, quick):
@@ -1635,6 +1840,8 @@ def replay(ctx, rp, prop):
     r = rp.get("replay", {})
     if r.get("oracle") == "reply-size":
         return replay_c11_reply_size(rp)
+    if r.get("oracle") == "system":
+        return replay_flows(prop, rp)
     if "witness" in r:
         fails, last = witness_fails(r["witness"])
         print("witness", r["witness"], "->", last)
@@ -2010,9 +2217,15 @@ def run_c06_dgram(ctx):
                          "counts": tr.n, "last_step": steps[-1][:140] if steps else ""})
         for what, detail in viol:
             ctx.violation(what, {"script": ser_client(m, mc, fam, evs), "detail": detail, "oracle": "flows"})
+    run_c06_system(ctx)
 
 
 def replay_flows(prop, rp):
+    if rp.get("replay", {}).get("oracle") == "system":
+        r = system_replay(rp["replay"]["system"])
+        v = [x for x in system_verdict(r) if prop != "C06" or x[0] != "expired_query_still_waited_on"]
+        print("system run ->", r.log[-1] if r.log else "", v)
+        return bool(v)
     sc = rp.get("replay", {}).get("script")
     if not sc or sc.get("side") != "client":
         return None
